@@ -227,6 +227,7 @@ type Ctx struct {
 	ufGlobals func(key string) bool
 	funDecls map[string]string
 	counters map[string]int
+	pureFactsDone map[string]bool
 	substTerm map[string]Term // defined name -> literal (case split by term substitution)
 }
 
@@ -349,13 +350,14 @@ func (c *Ctx) axiom(app, sym string, t Term) {
 	if t.S == "true" {
 		return
 	}
-	c.axioms = append(c.axioms, Axiom{app, sym, t})
+	c.axioms = append(c.axioms, Axiom{App: app, Sym: sym, T: t})
 }
 
 type Axiom struct {
 	App string // name of the application term this axiom defines
 	Sym string // function symbol (spec_<name>)
 	T   Term
+	PerApp bool // relevant only when this very application occurs in the goal's cone
 }
 
 var specSymRe = regexp.MustCompile(`\bspec_[A-Za-z0-9_]+`)
@@ -777,7 +779,7 @@ func (c *Ctx) emitMany(os []*Oblig, allAxioms bool) (string, bool) {
 	for changed := true; changed; {
 		changed = false
 		for i, a := range c.axioms {
-			if !usedAx[i] && need[a.App] && (allAxioms || goalSyms[a.Sym]) {
+			if !usedAx[i] && need[a.App] && (allAxioms || (goalSyms[a.Sym] && (!a.PerApp || seenG[a.App]))) {
 				usedAx[i] = true
 				changed = true
 				hyps = append(hyps, a.T)
